@@ -1252,6 +1252,28 @@ def binding_by_a_statement_that_then_fails_is_not_reported():
     return got != [1]
 
 
+def failing_global_probe_keeps_the_others_from_completing_at_exit():
+    """C17 (fix 5f7dd7c): at interpreter exit a global probe whose deactivation raises (min() over no event) must not keep the other
+    global probes from publishing their results."""
+    from ptera import global_probe
+    from ptera import probe as P
+
+    def f(x):
+        y = x + 1
+        return y
+    out = []
+    p1 = global_probe("f > y"); p1["y"].count().subscribe(lambda v: out.append(("count1", v)))
+    p2 = global_probe("f > x"); p2["x"].filter(lambda v: v > 100).min().subscribe(lambda v: out.append(("min2", v)))
+    p3 = global_probe("f > y"); p3["y"].count().subscribe(lambda v: out.append(("count3", v)))
+    f(1); f(2)
+    try:
+        P._terminate_global_probes()
+    except Exception as e:  # noqa
+        print("raised", type(e).__name__)
+    print("published:", out)
+    return sorted(out) != [("count1", 2), ("count3", 2)]
+
+
 # case -> properties (the scenario corpus of DESIGN 2.6: every case is replayed natively by the quick check of its properties)
 CASES = {
     "tuple_unpack_generator": ["C01"], "tuple_unpack_dict": ["C01"], "starred_target": ["C01"], "subscript_index_twice": ["C01"],
@@ -1273,7 +1295,7 @@ CASES = {
     "overlay_left_while_a_generator_is_suspended_still_receives_its_events": ["C05"], "generator_shell_is_transparent": ["C09", "C05", "C01", "C06", "C02", "C07", "C03", "C17"], "probe_silenced_when_an_earlier_generator_finishes": ["C02", "C06"],
     "suspended_generator_in_a_local_outlives_its_frame": ["C09"], "slice_bounds_evaluated_once": ["C01", "C02"], "match_statement_under_tooling": ["C01", "C10", "C02"], "provenance_follows_python_scoping": ["C10"], "augmented_attribute_store_is_a_binding": ["C04", "C02"],
     "stale_generator_answer_is_not_remembered": ["C05", "C07", "C02", "C09"],
-    "hidden_temporaries_keep_generator_alive": ["C09"], "non_ascii_variable_refused": ["C10"], "name_bound_twice_by_one_target_reports_the_last_value_twice": ["C02"], "binding_by_a_statement_that_then_fails_is_not_reported": ["C02"], "total_record_repeats_a_value_once_per_way_of_matching": ["C07"], "same_name_at_two_placements": ["C14"],
+    "hidden_temporaries_keep_generator_alive": ["C09"], "non_ascii_variable_refused": ["C10"], "failing_global_probe_keeps_the_others_from_completing_at_exit": ["C17"], "name_bound_twice_by_one_target_reports_the_last_value_twice": ["C02"], "binding_by_a_statement_that_then_fails_is_not_reported": ["C02"], "total_record_repeats_a_value_once_per_way_of_matching": ["C07"], "same_name_at_two_placements": ["C14"],
 }
 
 
